@@ -1049,11 +1049,12 @@ func (e *c20Env) runSubCase(rng *rand.Rand) *c20SubCase {
 // ---------------------------------------------------------------- handler middleware
 
 type c20MwMsg struct {
-	Out    int  `json:"out"`    // 0 ok, 1 error, 2 panic
-	NOuts  int  `json:"nouts"`  // produced messages (ok only)
-	PubOK  bool `json:"pub_ok"` // the handler's publisher accepts
-	PanicV int  `json:"panicv"` // 0 string, 1 error, 2 nil
-	Pass   bool `json:"pass"`   // ok: the handler returns the consumed message itself (router only)
+	Out      int  `json:"out"`       // 0 ok, 1 error, 2 panic
+	NOuts    int  `json:"nouts"`     // produced messages (ok only)
+	PubOK    bool `json:"pub_ok"`    // the handler's publisher accepts
+	PubPanic bool `json:"pub_panic"` // ... or panics (router only; wins over PubOK)
+	PanicV   int  `json:"panicv"`    // 0 string, 1 error, 2 nil
+	Pass     bool `json:"pass"`      // ok: the handler returns the consumed message itself (router only)
 }
 
 type c20MwCase struct {
@@ -1103,6 +1104,9 @@ func c20RandMwMsgs(rng *rand.Rand, router bool) []c20MwMsg {
 			mm.NOuts = []int{0, 1, 2}[rng.Intn(3)]
 			if mm.NOuts == 1 && rng.Intn(2) == 0 {
 				mm.Pass = true
+			}
+			if mm.NOuts > 0 && rng.Intn(4) == 0 {
+				mm.PubPanic = true
 			}
 		}
 		msgs[i] = mm
@@ -1168,6 +1172,9 @@ func (e *c20Env) runMwRouter(rng *rand.Rand, layers int) *c20MwCase {
 		id := msgs[0].UUID
 		if i := strings.Index(id, "-out"); i >= 0 {
 			id = id[:i]
+		}
+		if byID[id].PubPanic {
+			panic([]interface{}{"scripted publisher panic", nil, errors.New("x")}[n%3])
 		}
 		if !byID[id].PubOK {
 			return errors.New("scripted publish error")
